@@ -1854,8 +1854,11 @@ fn step_temp_coll(env: &Env, ctx: &mut ThreadCtx, kind: KindTag, members: &[Memb
 			MemberSpec::Coll(j) => *j < env.world.colls.len() && env.world.colls[*j].nest.is_some(),
 			MemberSpec::Inner(j, k) => {
 				*j < env.world.colls.len()
-					&& env.world.colls[*j].nest.as_ref().and_then(|n| n.inner()).map(|s| *k < s.len()).unwrap_or(false)
+					&& (env.world.colls[*j].own.get(*k).copied().flatten().is_some()
+						|| env.world.colls[*j].nest.as_ref().and_then(|n| n.inner()).map(|s| *k < s.len()).unwrap_or(false))
 			}
+			// a temporary collection is built without a key: no fresh locks
+			MemberSpec::Own(_) => false,
 		};
 		if !ok {
 			return false;
